@@ -1025,5 +1025,83 @@ pub fn c08_cases(rng: &mut Rng, tier: &str) -> (Vec<Case>, bool) {
         kinds.dedup();
         cases.push(case_from(w, checks, kinds.join("+"), true, text.replace('\n', " | ")));
     }
+    // INPUT with a suitable reply == the same program with the assignment of that value in its place
+    let equiv: &[&str] = &[
+        "10 PRINT \"a\": INPUT {V}: PRINT \"b\"; {V}",
+        "10 INPUT {V}: INPUT {W}: PRINT {V}; {W}",
+        "10 PRINT \"NAME\": INPUT {V}: PRINT \"AGE\": INPUT {W}: PRINT {V}; {W}",
+        "10 FOR I = 1 TO 3: INPUT {A}(I): NEXT I\n20 PRINT {A}(1); {A}(2); {A}(3)",
+        "10 INPUT {A}(INT(RND(1)*10))\n20 FOR I = 0 TO 10: PRINT {A}(I);: NEXT I\n30 PRINT RND(1)",
+        "10 I = -1\n20 INPUT {A}(I)\n30 PRINT \"after\"",
+        "10 INPUT {A}(K)\n20 PRINT {A}(0); K",
+        "10 IF Q THEN INPUT {V}\n20 IF Q = 0 THEN INPUT {W}\n30 PRINT {V}; {W}",
+        "10 GOSUB 100: PRINT {V}\n20 END\n100 INPUT {V}: RETURN",
+        "10 INPUT {V}\n20 IF {V} = {V} THEN INPUT {W}: PRINT {W}",
+    ];
+    for tmpl in equiv {
+        for numeric in [true, false] {
+            for (ww, tt) in [(false, false), (true, false), (false, true)] {
+                let (v, wv, a, val, lit) = if numeric { ("X", "Y", "P", "5", "5") } else { ("X$", "Y$", "N$", "hello", "\"hello\"") };
+                let text = tmpl.replace("{V}", v).replace("{W}", wv).replace("{A}", a);
+                let mut w = Walk::new(ww, tt);
+                w.op("seed 7");
+                for l in text.split('\n') {
+                    w.start(l);
+                }
+                let a1 = w.ops.len();
+                w.start("RUN");
+                let mut nr = 0;
+                w.drive(&[val.to_string()], &mut nr, 120, false);
+                w.state();
+                w.op("snap");
+                let a2 = w.last();
+                // the same program with `INPUT t` replaced by `t = value`
+                let mut assign = String::new();
+                for l in text.split('\n') {
+                    let mut out = String::new();
+                    let mut rest = l;
+                    while let Some(p) = rest.find("INPUT ") {
+                        out.push_str(&rest[..p]);
+                        let after = &rest[p + 6..];
+                        // the target extends to the next ':' at depth 0 or the end
+                        let mut depth = 0;
+                        let mut end = after.len();
+                        for (i, c) in after.char_indices() {
+                            match c {
+                                '(' => depth += 1,
+                                ')' => depth -= 1,
+                                ':' if depth == 0 => {
+                                    end = i;
+                                    break;
+                                }
+                                _ => {}
+                            }
+                        }
+                        out.push_str(&format!("{} = {}", after[..end].trim(), lit));
+                        rest = &after[end..];
+                    }
+                    out.push_str(rest);
+                    assign.push_str(&out);
+                    assign.push('\n');
+                }
+                w.op(&format!("new {} {}", ww as u8, tt as u8));
+                w.op("seed 7");
+                for l in assign.trim_end().split('\n') {
+                    w.start(l);
+                }
+                let b1 = w.ops.len();
+                w.start("RUN");
+                w.drive(&[], &mut nr, 120, false);
+                w.state();
+                w.op("snap");
+                let b2 = w.last();
+                let checks = vec![
+                    format!("transcript-eq {}-{} {}-{} noreply errline drop=TRX{}", a1, a2, b1, b2, if w.cut { " prefix" } else { "" }),
+                    format!("snap-eq {} {} except=reads,lines,loc,fns,data,loops,stack,bp,imm", a2, b2),
+                ];
+                cases.push(case_from(w, checks, "input-vs-assignment".into(), true, text.replace('\n', " | ")));
+            }
+        }
+    }
     (cases, false)
 }
